@@ -9,7 +9,7 @@ import os, subprocess, random
 from lib import *
 from gen_lp import qs, rand_q, INF, NINF
 
-BLOCK_OPS = ("DUMP", "DUMPI", "ACCESS", "DUMPALL", "DUMPDBL", "DUMPMPF")
+BLOCK_OPS = ("DUMP", "DUMPI", "DUMPM", "DUMPMF", "ACCESS", "DUMPALL", "DUMPDBL", "DUMPMPF")
 INT_MAX = 2147483647
 
 
@@ -155,7 +155,7 @@ def compare_case(ops, crec, mrec):
         if name in BLOCK_OPS:
             if sc == "BLOCK" and sm == "BLOCK":
                 if rec_payload(c) != rec_payload(m):
-                    diffs.append((k, "state-after-failed-call" if (last_both_err or any_both_err) else "dump", first_diff(rec_payload(c), rec_payload(m))))
+                    diffs.append((k, "state-after-failed-call" if (last_both_err or any_both_err) else ("rawstore" if name.startswith("DUMPM") else "dump"), first_diff(rec_payload(c), rec_payload(m))))
             elif sc != sm:
                 diffs.append((k, "dump", "C %s / model %s" % (sc, sm)))
             continue
